@@ -231,6 +231,36 @@ class Roles:
             return c.pop()
         return self.F.method(AXE, fallback_name)["path"]
 
+    def hook_roles(self):
+        """(run_functions, run_before, run_after, mnemonic_hooks, empty) by signature; the two phase runners are told
+        apart by the boolean constant they pass to the shared runner (true = before). Falls back to the names."""
+        HOOK = "state::hooks::Hook"
+        Fm = self.F
+        hm_ = {k: b for k, b in Fm.bodies.items() if b.get("impl_self") == HOOK and b["kind"] != "Closure" and not b["glue"]}
+        rf = [k for k, b in hm_.items() if len(sig(b)) == 5 and sig(b)[2] == "bool"]
+        rf = rf[0] if len(rf) == 1 else Fm.method(HOOK, "run_functions")["path"]
+        before = after = None
+        for k, b in hm_.items():
+            s_ = sig(b)
+            if len(s_) == 4 and _is_adt(s_[3], "auto::generated::SupportedMnemonic") and isinstance(s_[2], list) and s_[2][0] == "ref":
+                for blk in b["blocks"]:
+                    t = blk["term"]
+                    if t["k"] == "call" and F.callee_name(t) == rf and len(t["args"]) >= 2 and t["args"][1][0] == "k":
+                        v = t["args"][1][1].get("v")
+                        if v == 1:
+                            before = k
+                        elif v == 0:
+                            after = k
+        before = before or Fm.method(HOOK, "run_before")["path"]
+        after = after or Fm.method(HOOK, "run_after")["path"]
+        ng = {k: b for k, b in Fm.bodies.items() if not b["glue"] and b["kind"] != "Closure" and b.get("impl_self") == AXE}
+        mh = [k for k, b in ng.items() if len(sig(b)) == 3 and _is_self(sig(b)[1]) and _is_adt(sig(b)[2], "auto::generated::SupportedMnemonic")
+              and isinstance(sig(b)[0], list) and sig(b)[0][:2] == ["adt", "std::option::Option"] and "hooks::Hook" in repr(sig(b)[0])]
+        mh = mh[0] if len(mh) == 1 else Fm.method(AXE, "mnemonic_hooks")["path"]
+        em = [k for k, b in ng.items() if len(sig(b)) == 1 and _is_adt(sig(b)[0], AXE) and b["vis"] != "pub"]
+        em = em[0] if len(em) == 1 else Fm.method(AXE, "empty")["path"]
+        return rf, before, after, mh, em
+
     def decoders(self):
         """(decode_next, decode_at, fetch): the methods returning Result<Instruction, _> taking (&self) / (&self, u64),
         and the (&self, u64) -> Result<Vec<u8>, _> method the latter calls to fetch code bytes"""
